@@ -451,15 +451,15 @@ package modbus
 
 //@ func (g *builderSlotGroup) AddField(f Field)
 //@   requires g != nil && groupInv(g) && fieldOfGroup(g, f) && fieldOK(f)
-//@   safety[C06,C10]
+//@   safety[C05,C06,C10]
 //@   modifies hdr(g.slots), g.slots
-//@   ensures[C06] groupInv(g)
-//@   ensures[C06] g.serverAddress == old(g.serverAddress) && g.unitID == old(g.unitID) && g.isForCoils == old(g.isForCoils)
-//@   ensures[C06] !old(hasSlot(g, f.Address)) ==> len(g.slots) == old(len(g.slots)) + 1 && g.slots[len(g.slots)-1].address == f.Address && int(g.slots[len(g.slots)-1].size) == fieldRegs(f) && len(g.slots[len(g.slots)-1].fields) == 1 && g.slots[len(g.slots)-1].fields[0] == f
-//@   ensures[C06] old(hasSlot(g, f.Address)) ==> len(g.slots) == old(len(g.slots))
-//@   ensures[C06] forall k in 0..old(len(g.slots)) :: g.slots[k].address == old(g.slots[k].address) && (g.slots[k].address != f.Address ==> g.slots[k].size == old(g.slots[k].size) && len(g.slots[k].fields) == old(len(g.slots[k].fields)))
-//@   ensures[C06] forall k in 0..old(len(g.slots)) :: forall m in 0..old(len(g.slots[k].fields)) :: g.slots[k].fields[m] == old(g.slots[k].fields[m])
-//@   ensures[C06] forall k in 0..old(len(g.slots)) :: g.slots[k].address == f.Address ==> len(g.slots[k].fields) == old(len(g.slots[k].fields)) + 1 && g.slots[k].fields[len(g.slots[k].fields)-1] == f && int(g.slots[k].size) == ite(fieldRegs(f) > old(int(g.slots[k].size)), fieldRegs(f), old(int(g.slots[k].size)))
+//@   ensures[C05,C06] groupInv(g)
+//@   ensures[C05,C06] g.serverAddress == old(g.serverAddress) && g.unitID == old(g.unitID) && g.isForCoils == old(g.isForCoils)
+//@   ensures[C05,C06] !old(hasSlot(g, f.Address)) ==> len(g.slots) == old(len(g.slots)) + 1 && g.slots[len(g.slots)-1].address == f.Address && int(g.slots[len(g.slots)-1].size) == fieldRegs(f) && len(g.slots[len(g.slots)-1].fields) == 1 && g.slots[len(g.slots)-1].fields[0] == f
+//@   ensures[C05,C06] old(hasSlot(g, f.Address)) ==> len(g.slots) == old(len(g.slots))
+//@   ensures[C05,C06] forall k in 0..old(len(g.slots)) :: g.slots[k].address == old(g.slots[k].address) && (g.slots[k].address != f.Address ==> g.slots[k].size == old(g.slots[k].size) && len(g.slots[k].fields) == old(len(g.slots[k].fields)))
+//@   ensures[C05,C06] forall k in 0..old(len(g.slots)) :: forall m in 0..old(len(g.slots[k].fields)) :: g.slots[k].fields[m] == old(g.slots[k].fields[m])
+//@   ensures[C05,C06] forall k in 0..old(len(g.slots)) :: g.slots[k].address == f.Address ==> len(g.slots[k].fields) == old(len(g.slots[k].fields)) + 1 && g.slots[k].fields[len(g.slots[k].fields)-1] == f && int(g.slots[k].size) == ite(fieldRegs(f) > old(int(g.slots[k].size)), fieldRegs(f), old(int(g.slots[k].size)))
 
 //@ extern sort.Sort(data sort.Interface)
 //@   requires dyntype(data) == slotsSorter
@@ -475,12 +475,12 @@ package modbus
 //@ func batchToRequests(connectionGroup []builderSlotGroup) (res []requestBatch)
 //@   requires forall j in 0..len(connectionGroup) :: groupOK(connectionGroup[j])
 //@   requires forall j in 0..len(connectionGroup) :: connectionGroup[j].isForCoils == connectionGroup[0].isForCoils
-//@   safety[C06,C10]
+//@   safety[C05,C06,C10]
 //@   modifies backing(connectionGroup[0].slots), sortCalls
-//@   ensures[C06] forall j in 0..len(res) :: batchOK(res[j])
-//@   ensures[C06] len(res) >= len(connectionGroup)
-//@   ensures[C06] forall j in 0..len(res) :: res[j].Quantity != 0 ==> (res[j].fields[0].Type == FieldTypeCoil) == connectionGroup[0].isForCoils
-//@   ensures[C06] (forall j in 0..len(connectionGroup) :: old(fitsOne(connectionGroup[j]))) ==> len(res) == len(connectionGroup)
+//@   ensures[C05,C06] forall j in 0..len(res) :: batchOK(res[j])
+//@   ensures[C05,C06] len(res) >= len(connectionGroup)
+//@   ensures[C05,C06] forall j in 0..len(res) :: res[j].Quantity != 0 ==> (res[j].fields[0].Type == FieldTypeCoil) == connectionGroup[0].isForCoils
+//@   ensures[C05,C06] (forall j in 0..len(connectionGroup) :: old(fitsOne(connectionGroup[j]))) ==> len(res) == len(connectionGroup)
 //@   loop 0
 //@     forget
 //@     modifies backing(connectionGroup[0].slots), sortCalls
@@ -525,11 +525,11 @@ package modbus
 
 //@ func split(fields []Field, funcType splitToFuncType) (res []BuilderRequest, err error)
 //@   requires funcType <= 7
-//@   safety[C06,C10]
+//@   safety[C05,C06,C10]
 //@   modifies sortCalls
-//@   ensures[C06] !(forall i in 0..len(fields) :: fieldOK(fields[i])) ==> err != nil
-//@   ensures[C06] err != nil ==> len(res) == 0
-//@   ensures[C06] err == nil ==> forall j in 0..len(res) :: reqOK(res[j], funcType)
+//@   ensures[C05,C06] !(forall i in 0..len(fields) :: fieldOK(fields[i])) ==> err != nil
+//@   ensures[C05,C06] err != nil ==> len(res) == 0
+//@   ensures[C05,C06] err == nil ==> forall j in 0..len(res) :: reqOK(res[j], funcType)
 //@   loop 0
 //@     forget
 //@     invariant -1 <= rangeindex && rangeindex < len(batches) && len(result) == rangeindex+1
